@@ -14,6 +14,9 @@ def val? : Sexp → Option Val
   | int i => some (.int i)
   | str s => some (.str s.toList)
   | sym "none" => some .none
+  | sym "T" => some (.bool true)
+  | sym "F" => some (.bool false)
+  | list [sym "real", str r] => some (.real r.toList)
   | _ => none
 
 def ofName (n : Name) : Sexp := str (String.ofList n)
@@ -22,6 +25,8 @@ def ofVal : Val → Sexp
   | .int i => int i
   | .str s => str (String.ofList s)
   | .none => sym "none"
+  | .bool b => ofBool b
+  | .real r => list [sym "real", str (String.ofList r)]
 
 def ofExc : Exc → Sexp
   | .attributeError => sym "AttributeError"
